@@ -73,19 +73,12 @@ fn c13_read_validation() {
     core::mem::forget(env);
 }
 
-// @harness c01_read_split
-// @props C01 C13 C16
-// @tier quick
-// @timeout 1200
-// @needs RF
-// @desc the whole body of __read_at with its awaited callees shimmed (backend completes every request): a rejected request issues nothing; an accepted in-bounds request returns exactly the requested length and is cut into pieces that, in order, exactly partition [offset, offset+len), none crossing a cluster boundary, piece k carrying the L2 entry of the k-th guest cluster and the k-th consecutive sub-range of the caller's buffer; a request crossing the end of the image returns the clamped count and touches nothing beyond it
-// @bounds offset: all u64; len: all values spanning <= 4 clusters; virtual size <= 2^63; full symbolic geometry; L2 entries arbitrary; top-level (non-backing) device
-// @funcs Qcow2Dev::__read_at (whole body; get_l2_entry, get_l2_entries and do_read replaced by recorders)
-// @stub alloc::fmt::format -> String::new()
+macro_rules! c01_read_split_h {
+    ($name:ident, $span:expr) => {
 #[kani::proof]
 #[kani::unwind(10)]
 #[kani::stub(std::fmt::format, fmt_stub2)]
-fn c01_read_split() {
+fn $name() {
     let g = any_geo();
     let vsize: u64 = kani::any();
     kani::assume(vsize <= 1u64 << 63);
@@ -99,7 +92,7 @@ fn c01_read_split() {
     let offset: u64 = kani::any();
     let len: usize = kani::any();
     let cs = 1u64 << g.cb;
-    kani::assume(len >= 1 && (len as u64) <= 3 * cs + cs / 2);
+    kani::assume(len >= 1 && (len as u64) <= $span * cs + cs / 2);
     let r = env.seg_rf(KBuf::new(len), offset);
     let bs = 1u64 << g.bs;
     let valid = (len as u64) % bs == 0 && offset % bs == 0 && offset < vsize;
@@ -115,7 +108,7 @@ fn c01_read_split() {
         let mut bpos = 0usize;
         let first = offset >> g.cb;
         let mut k = 0;
-        while k < 5 {
+        while k < 7 {
             if k < n {
                 let w = env.get_rec(k);
                 assert!(w.kind == K_READ);
@@ -130,7 +123,7 @@ fn c01_read_split() {
         }
         // exactly the (clamped) range was read: nothing beyond the end of the image
         assert!(pos == offset + want && bpos as u64 == want);
-        kani::cover!(n == 4 && offset & (cs - 1) != 0);
+        kani::cover!(n as u64 == $span + 1 && offset & (cs - 1) != 0);
         kani::cover!(n == 1 && want == len as u64);
         kani::cover!(want < len as u64 && want > 0, "read crossing the end");
         kani::cover!(n == 2 && len as u64 <= cs);
@@ -139,3 +132,28 @@ fn c01_read_split() {
     core::mem::forget(r);
     core::mem::forget(env);
 }
+    };
+}
+
+// @harness c01_read_split
+// @props C01 C13 C16
+// @tier quick
+// @timeout 1200
+// @needs RF
+// @desc the whole body of __read_at with its awaited callees shimmed (backend completes every request): a rejected request issues nothing; an accepted in-bounds request returns exactly the requested length and is cut into pieces that, in order, exactly partition [offset, offset+len), none crossing a cluster boundary, piece k carrying the L2 entry of the k-th guest cluster and the k-th consecutive sub-range of the caller's buffer; a request crossing the end of the image returns the clamped count and touches nothing beyond it
+// @bounds offset: all u64; len: all values spanning <= 4 clusters; virtual size <= 2^63; full symbolic geometry; L2 entries arbitrary; top-level (non-backing) device
+// @funcs Qcow2Dev::__read_at (whole body; get_l2_entry, get_l2_entries and do_read replaced by recorders)
+// @stub alloc::fmt::format -> String::new()
+c01_read_split_h!(c01_read_split, 3);
+
+// @harness c01_read_split_6
+// @props C01 C13 C16
+// @tier thorough
+// @cost 400
+// @timeout 3000
+// @needs RF
+// @desc the whole body of __read_at with its awaited callees shimmed (backend completes every request): a rejected request issues nothing; an accepted in-bounds request returns exactly the requested length and is cut into pieces that, in order, exactly partition [offset, offset+len), none crossing a cluster boundary, piece k carrying the L2 entry of the k-th guest cluster and the k-th consecutive sub-range of the caller's buffer; a request crossing the end of the image returns the clamped count and touches nothing beyond it
+// @bounds offset: all u64; len: all values spanning <= 6 clusters; virtual size <= 2^63; full symbolic geometry; L2 entries arbitrary; top-level (non-backing) device
+// @funcs Qcow2Dev::__read_at (whole body; get_l2_entry, get_l2_entries and do_read replaced by recorders)
+// @stub alloc::fmt::format -> String::new()
+c01_read_split_h!(c01_read_split_6, 5);
